@@ -253,6 +253,101 @@ def check_case(ctx, case, rng):
             expect = lib.nan_clean(model.clean(v)) if not gen.has_union(top) else None
             roundtrip(ctx, case, cfgd, cfg, T, obj, "constructed", expect=expect)
             overflow(ctx, case, cfgd, cfg, T, v, rng)
+        # (d) the same, used, types after the byte order was switched on the loaded object: whatever was written
+        # before must not have fixed the order of later writes (writer and reader must follow the switch together)
+        switched_roundtrip(ctx, case, cfgd, cs, rng)
+
+
+def switched_roundtrip(ctx, case, cfgd, cs, rng):
+    top, T = case["top"], cs.T
+    other = ">" if cfgd["endian"] == "<" else "<"
+    cs.endian = other
+    cd = dict(cfgd, endian=other, switched_from=cfgd["endian"])
+    cfg2 = engine.mcfg(case, other, cfgd["align"], cfgd["ptr"])
+    ctx.cell("endian-switched-after-use")
+    try:
+        v = model.random_value(top, rng, cfg2, maxlen=4)
+        obj = lib.build(T, top, v, enum_members=True)
+    except Exception:  # noqa: BLE001
+        obj = None
+    if obj is not None:
+        roundtrip(ctx, case, cd, cfg2, T, obj, "constructed")
+    inp = gen.arbitrary_bytes(rng, rng.randint(0, 40) + 64, rng.randrange(4))
+    r = outcome(T, inp)
+    if r[0] == "ok":
+        roundtrip(ctx, case, cd, cfg2, T, r[1], "parsed", inp=inp)
+
+
+def explicit_offsets(ctx, n, pinned=None):
+    """Structures built through the API whose members sit at explicit forward offsets (packed and aligned; alone, as a
+    nested member and as array elements): a constructed value is dumped and parsed back."""
+    from dissect.cstruct import Field
+
+    sizes = {"uint8": 1, "uint16": 2, "uint32": 4, "uint64": 8, "int24": 3, "int16": 2}
+    for it in range(n):
+        rng = ctx.rng("explicit-offsets", it)
+        if pinned is not None:
+            spec, endian, align, compiled = [tuple(x) for x in pinned["fields"]], pinned["endian"], pinned["align"], pinned["compiled"]
+        else:
+            endian, align, compiled = rng.choice("<>"), rng.random() < 0.3, rng.random() < 0.5
+            spec, off = [], 0
+            for j in range(rng.randint(2, 5)):
+                t = rng.choice(list(sizes))
+                al = {3: 4}.get(sizes[t], sizes[t]) if align else 1
+                explicit = None
+                if j and rng.random() < 0.6:
+                    # in aligned mode an explicit offset is one the member could have (a multiple of its alignment):
+                    # others are moved by the layout and would overlap what follows
+                    off = -(-(off + rng.choice([1, 2, 3, 5, 8])) // al) * al
+                    explicit = off
+                else:
+                    off = -(-off // al) * al
+                spec.append((f"f{j}", t, explicit))
+                off += sizes[t]
+        det = {"fields": spec, "endian": endian, "align": align, "compiled": compiled, "workload": "explicit-offsets"}
+        ctx.evaluation(("explicit-offsets", repr(spec), endian, align, compiled))
+        ctx.cell("explicit-forward-offsets")
+        try:
+            cs = lib.cstruct(endian=endian)
+            T = cs._make_struct("T", [Field(nm, getattr(cs, t), offset=ex) for nm, t, ex in spec], align=align)
+            O = cs._make_struct("O", [Field("h", cs.uint8), Field("t", T), Field("a", T[2]), Field("z", cs.uint16)], align=align)
+            if compiled:
+                from dissect.cstruct import compiler
+
+                T, O = compiler.compile(T), compiler.compile(O)
+
+            def val():
+                kw = {}
+                for nm, t, _ex in spec:
+                    bits = sizes[t] * 8
+                    kw[nm] = rng.randrange(-(1 << (bits - 1)), 1 << (bits - 1)) if t.startswith("int") else rng.randrange(1, 1 << bits)
+                return kw
+
+            problems = []
+            k1, k2, k3 = val(), val(), val()
+            v = T(**k1)
+            d = v.dumps()
+            r = outcome(T, d)
+            if r[0] != "ok" or r[2] != len(d) or any(getattr(r[1], nm) != k1[nm] for nm in k1):
+                problems.append(("alone", d.hex(), repr(r[1]), r[2]))
+            o = O(h=7, t=T(**k1), a=[T(**k2), T(**k3)], z=0x1234)
+            d = o.dumps()
+            r = outcome(O, d)
+            if r[0] != "ok" or r[2] != len(d):
+                problems.append(("nested", d.hex(), repr(r[1]), r[2]))
+            else:
+                q = r[1]
+                got = [q.h, q.z] + [getattr(x, nm) for x, k in ((q.t, k1), (q.a[0], k2), (q.a[1], k3)) for nm in k]
+                want = [7, 0x1234] + [k[nm] for k in (k1, k2, k3) for nm in k]
+                if got != want:
+                    problems.append(("nested-values", d.hex(), got, want))
+        except Exception as e:  # noqa: BLE001
+            ctx.violation("explicit-offsets", f"explicit-offsets:round-trip-raises:{type(e).__name__}", dict(det, error=lib.exc_sig(e)))
+            continue
+        if problems:
+            ctx.violation("explicit-offsets", "explicit-offsets:roundtrip-mismatch", dict(det, problems=repr(problems)))
+        else:
+            ctx.event("explicit_offset_roundtrips")
 
 
 def witnesses(ctx):
@@ -297,6 +392,8 @@ def deep_folded_lengths(ctx, rng, n):
 def run(ctx):
     if ctx.shard == 0:
         witnesses(ctx)
+    if ctx.shard % 4 == 2:
+        explicit_offsets(ctx, 25 if not ctx.thorough else 400)
     if ctx.shard % 4 == 1:
         deep_folded_lengths(ctx, ctx.rng("deep-folded"), 6 if not ctx.thorough else 60)
     for i in range(N_CASES[ctx.tier]):
@@ -312,17 +409,29 @@ def run(ctx):
 
 
 def replay(ctx, detail):
+    if detail.get("workload") == "explicit-offsets":
+        print(detail)
+        explicit_offsets(ctx, 3, pinned=detail)
+        return
     case = engine.case_from_detail(detail)
     cfgd = detail["cfg"]
     print("definition:\n" + case["text"])
     print("config:", cfgd)
-    cs, err = engine.load_cfg(ctx, case, cfgd)
+    cs, err = engine.load_cfg(ctx, case, dict(cfgd, endian=cfgd.get("switched_from", cfgd["endian"])))
     if cs is None:
         print("load error:", repr(err))
         ctx.violation("load", "load-fails", detail)
         return
     cfg = engine.mcfg(case, cfgd["endian"], cfgd["align"], cfgd["ptr"])
     T = cs.T
+    if "switched_from" in cfgd:
+        # the types were used under the first byte order before it was switched
+        for use in (lambda: T().dumps(), lambda: T(bytes(256)).dumps()):
+            try:
+                use()
+            except Exception:  # noqa: BLE001
+                pass
+        cs.endian = cfgd["endian"]
     if "bad_value" in detail:
         print("overflow case: path", detail["path"], "value", detail["bad_value"], "dump", detail.get("dump"))
         ctx.violation("overflow", "silent-truncation-or-wrap", detail)
